@@ -58,6 +58,7 @@ type PlanRec struct {
 type QCall struct {
 	URL string `json:"url"`
 	N   int    `json:"n"`
+	Dup bool   `json:"dup"` // two requests with the same text and {id} as only variable
 }
 
 type GW struct {
@@ -154,8 +155,21 @@ type recQueryer struct {
 }
 
 func (q *recQueryer) Query(rs []*requests.Request) ([]map[string]interface{}, error) {
+	seen := map[string]bool{}
+	dup := false
+	for _, r := range rs {
+		if len(r.Variables) == 1 {
+			if id, ok := r.Variables["id"]; ok {
+				k := fmt.Sprintf("%v|%s", id, r.Query)
+				if seen[k] {
+					dup = true
+				}
+				seen[k] = true
+			}
+		}
+	}
 	q.g.mu.Lock()
-	q.g.Calls = append(q.g.Calls, QCall{URL: q.inner.URL(), N: len(rs)})
+	q.g.Calls = append(q.g.Calls, QCall{URL: q.inner.URL(), N: len(rs), Dup: dup})
 	q.g.mu.Unlock()
 	return q.inner.Query(rs)
 }
